@@ -286,10 +286,20 @@ func genCancel(tier string, seed int64, only string) []*Case {
 		id++
 		cases = append(cases, newCase(id, append([]string{"kind", "cancel"}, kv...)...))
 	}
+	var srcNames, opNames []string
 	for name := range cancelSources {
+		srcNames = append(srcNames, name)
+	}
+	for name := range cancelOps {
+		opNames = append(opNames, name)
+	}
+	sortStrings(srcNames)
+	sortStrings(opNames) // (map iteration order differs from process to process: the shards must see the same list)
+	for _, name := range srcNames {
 		add("op", "src:"+name, "row", "-", "term", "ctx")
 	}
-	for name, co := range cancelOps {
+	for _, name := range opNames {
+		co := cancelOps[name]
 		for _, term := range []string{"unsub", "take1", "unsub0"} {
 			if term == "take1" && (name == "Delay") {
 				continue
